@@ -55,6 +55,7 @@ var verifSched struct {
 	lockOwner map[string]int
 	commits   []int
 	dir       string
+	quiet     bool
 }
 
 func verifSchedReset() {
@@ -69,6 +70,7 @@ func verifSchedReset() {
 	verifSched.lockOwner = map[string]int{}
 	verifSched.commits = nil
 	verifSched.dir = ""
+	verifSched.quiet = false
 }
 
 func verifCurProc() int {
@@ -100,6 +102,9 @@ func verifFileClass(p string) string {
 // verifStep announces a filesystem step; see Machine.step in the engine.
 func verifStep(visible bool, op string, paths ...string) {
 	s := &verifSched
+	if s.quiet {
+		return
+	}
 	what := op
 	for _, p := range paths {
 		what += " " + verifFileClass(p)
